@@ -431,6 +431,8 @@ class WildSelector(JSONPathSelector):
         self, matches: AsyncIterable[JSONPathMatch]
     ) -> AsyncIterable[JSONPathMatch]:
         async for match in matches:
+            if isinstance(match.obj, str):
+                continue
             if isinstance(match.obj, Mapping):
                 for key, val in match.obj.items():
                     _match = self.env.match_class(
